@@ -79,6 +79,11 @@ fn rel_source(file: &str) -> String {
     if let Some(r) = file.strip_prefix("/repo/") {
         return r.to_string();
     }
+    if let Ok(root) = std::env::var("VERIF_REPO_ROOT") {
+        if let Some(r) = file.strip_prefix(&format!("{root}/")) {
+            return r.to_string();
+        }
+    }
     if let Some(p) = file.find("/registry/src/") {
         // registry crate: keep "<crate-version>/src/..."
         let rest = &file[p + "/registry/src/".len()..];
@@ -89,7 +94,8 @@ fn rel_source(file: &str) -> String {
     file.to_string()
 }
 fn source_line_text(file: &str, line: u32) -> String {
-    let cands = [file.to_string(), format!("{REPO_ROOT}/{file}")];
+    let root = std::env::var("VERIF_REPO_ROOT").unwrap_or_else(|_| REPO_ROOT.to_string());
+    let cands = [file.to_string(), format!("{root}/{file}")];
     for c in cands {
         if let Ok(s) = std::fs::read_to_string(&c) {
             if let Some(l) = s.lines().nth(line.saturating_sub(1) as usize) {
@@ -431,6 +437,7 @@ fn worker_main(def: &CheckDef, space_name: &str) -> ! {
         std::process::exit(2)
     });
     let sb = space.sandbox.expect("sandbox cfg");
+    crate::alloc::enable();
     static CASE_START: AtomicU64 = AtomicU64::new(0);
     let wall = sb.wall_ms;
     std::thread::spawn(move || loop {
@@ -788,7 +795,9 @@ fn finish(id: &str, def: &CheckDef, ctx: &Ctx, t0: Instant, total: Local, per_sp
         "wall_s": (t0.elapsed().as_secs_f64() * 100.0).round() / 100.0,
         "violations": new_violations.len(),
     });
-    let evdir = format!("{VERIF_ROOT}/evidence");
+    // VERIF_OUT_DIR redirects evidence/ and replays/ (used when running against a scratch mutant copy)
+    let out_root = std::env::var("VERIF_OUT_DIR").unwrap_or_else(|_| VERIF_ROOT.to_string());
+    let evdir = format!("{out_root}/evidence");
     let _ = std::fs::create_dir_all(&evdir);
     let evpath = format!("{evdir}/{id}.json");
     if let Err(e) = std::fs::write(&evpath, serde_json::to_string_pretty(&ev).unwrap() + "\n") {
@@ -817,7 +826,7 @@ fn finish(id: &str, def: &CheckDef, ctx: &Ctx, t0: Instant, total: Local, per_sp
         // leave without running destructors of possibly stuck threads
         unsafe { libc::_exit(0) }
     }
-    let dir = format!("{VERIF_ROOT}/replays/{id}");
+    let dir = format!("{out_root}/replays/{id}");
     let _ = std::fs::create_dir_all(&dir);
     for (n, v) in new_violations.iter().enumerate() {
         let path = format!("{dir}/{n}.json");
